@@ -31,7 +31,7 @@ var c04Args = []struct{ cls, text string }{
 	{"zero", "0"}, {"one", "1"}, {"neg", "-1"}, {"half", "0.5"}, {"2^31", "2147483648"}, {"-2^31", "-2147483648"}, {"2^31-1", "2147483647"}, {"2^63", "9223372036854775808"},
 	{"-2^63", "-9223372036854775809"}, {"1e100", "10000000000000000000000000000000000000000000000000000000000000000000000000000000000000000000000000000"},
 	{"tiny", "0.0000000000000000000000000000000000000000000000000000000000000001"}, {"2e9", "2000000000"}, {"big-frac", "123456789.123456789123456789"},
-	{"empty", `""`}, {"text", `"hello world"`}, {"numtext", `"12"`}, {"long", "long"}, {"unicode", `"é😀\u0000"`}, {"null", "null"}, {"true", "true"}, {"error", "(1/0)"},
+	{"empty", `""`}, {"text", `"hello world"`}, {"numtext", `"12"`}, {"long", "long"}, {"unicode", `"é😀\u0000"`}, {"cyrillic", `"да"`}, {"arabic-digit", `"١"`}, {"emoji-spaced", `" 😀 "`}, {"ascii3", `"abc"`}, {"2^64", "18446744073709551616"}, {"-2^64", "-18446744073709551616"}, {"2^64+1", "18446744073709551617"}, {"2^65", "36893488147419103232"}, {"null", "null"}, {"true", "true"}, {"error", "(1/0)"},
 	{"array", "array(1, \"x\", null)"}, {"empty-array", "array()"}, {"nested", "array(array(array(1)), object(\"a\", array()))"}, {"object", "object(\"a\", 1, \"b\", \"x\")"},
 	{"json", `parse_json("{\"a\":[1,{\"b\":null}],\"__default__\":5}")`}, {"func", "upper"}, {"lambda", "(x) => x"}, {"date1", `datetime("0001-01-01T00:00:00Z")`}, {"date9999", `datetime("9999-12-31T23:59:59Z")`},
 	{"date", `date("2024-02-29")`}, {"time", `time("23:59:59.999999")`}, {"format", `"YYYY-MM-DD tt:mm:ss.fffffffff"`}, {"regex", `"(a+)+$"`}, {"bad-regex", `"[("`}, {"tz", `"America/Santiago"`}, {"ctx", "big"},
@@ -68,13 +68,16 @@ func c04Corpus(r *Rng, n int) []string {
 			}
 		}
 		// each boundary value in each of the first three positions
-		for pos := 0; pos < 3; pos++ {
-			for _, a := range c04Args {
-				as := []string{`"hello world"`, "2", "1"}
-				as[pos] = a.text
-				out = append(out, fmt.Sprintf("fn|%s@%d=%s|@(%s(%s))", f, pos, a.cls, f, strings.Join(as[:pos+1], ", ")))
-				if r.Chance(25) {
-					out = append(out, fmt.Sprintf("fn|%s@%d=%s+|@(%s(%s))", f, pos, a.cls, f, strings.Join(as, ", ")))
+		// around a text-first, a number-first and a date-first tuple, so that the value reaches functions of every signature
+		for bi, base := range [][]string{{`"hello world"`, "2", "1"}, {"5", "2", "1"}, {`"2024-02-29T10:30:00Z"`, "3", `"D"`}, {`array(3, 1, 2)`, `"a"`, "1"}} {
+			for pos := 0; pos < 3; pos++ {
+				for _, a := range c04Args {
+					as := append([]string{}, base...)
+					as[pos] = a.text
+					out = append(out, fmt.Sprintf("fn|%s@%d.%d=%s|@(%s(%s))", f, bi, pos, a.cls, f, strings.Join(as[:pos+1], ", ")))
+					if r.Chance(25) {
+						out = append(out, fmt.Sprintf("fn|%s@%d.%d=%s+|@(%s(%s))", f, bi, pos, a.cls, f, strings.Join(as, ", ")))
+					}
 				}
 			}
 		}
